@@ -6,7 +6,9 @@ import (
 	"fmt"
 	"strings"
 	"testing"
+	"testing/iotest"
 	"text/scanner"
+	"verifharness/fixtures"
 
 	"github.com/alecthomas/participle/v2/lexer"
 	"pgregory.net/rapid"
@@ -70,6 +72,18 @@ func c04Lex(def lexer.Definition, c *c04Case) lexRun {
 		switch c.Entry {
 		case "reader":
 			l, r.err = def.Lex(c.Filename, strings.NewReader(c.Input))
+		case "dataerr":
+			// a reader that returns its last data together with io.EOF (flate, HTTP bodies, ...)
+			l, r.err = def.Lex(c.Filename, iotest.DataErrReader(strings.NewReader(c.Input)))
+		case "onebyte":
+			l, r.err = def.Lex(c.Filename, iotest.OneByteReader(strings.NewReader(c.Input)))
+		case "namedreader":
+			// a reader with a Name() of its own (like *os.File): the caller's filename is what positions carry
+			if c.Kind == "scanner" {
+				l = lexer.Lex(c.Filename, fixtures.NamedReader{Reader: strings.NewReader(c.Input)})
+			} else {
+				l, r.err = def.Lex(c.Filename, fixtures.NamedReader{Reader: strings.NewReader(c.Input)})
+			}
 		case "bytes":
 			if bd, ok := def.(lexer.BytesDefinition); ok {
 				l, r.err = bd.LexBytes(c.Filename, []byte(c.Input))
@@ -213,7 +227,7 @@ func TestC04(t *testing.T) {
 	runProp(t, "C04", c04Rule, func(t *rapid.T, r *vstat.Run) {
 		c := &c04Case{
 			Filename: rapid.SampledFrom([]string{"", "f", "dir/file.x", "é.txt"}).Draw(t, "filename"),
-			Entry:    rapid.SampledFrom([]string{"string", "reader", "bytes"}).Draw(t, "entry"),
+			Entry:    rapid.SampledFrom([]string{"string", "reader", "bytes", "string", "reader", "bytes", "dataerr", "onebyte", "namedreader"}).Draw(t, "entry"),
 		}
 		switch k := rapid.IntRange(0, 10).Draw(t, "kind"); {
 		case k == 10:
